@@ -665,6 +665,29 @@ def check(case, mon):
     mon.klass(f"depth{min(dep, 8)}")
     mon.measure("num_dofs", setup.N)
 
+    # (h) history of a Scalar leaf: its value is changed with set_value between two
+    # evaluations (what adaptive time stepping does with the dt scalar) and then evaluated
+    # next to a fresh Scalar holding the OLD value - each leaf must contribute its own
+    # current value
+    try:
+        X = setup.es.md_variable(sk["vars"][0]["name"])
+    except Exception:  # noqa: BLE001
+        X = None
+    if X is not None:
+        st = setup.state.copy()
+        x0 = setup.es.evaluate(X, derivative=True, state=st)
+        sca = pp.ad.Scalar(2.5)
+        setup.es.evaluate(sca * X, derivative=False, state=st)
+        sca.set_value(4.0)
+        got = setup.es.evaluate(sca * X + pp.ad.Scalar(2.5) * X, derivative=True, state=st)
+        mon.count("scalar_set_value_histories")
+        mon.close("scalar_history_value", got.val, 6.5 * x0.val, 1e-12,
+                  "scalar-leaf:stale-value-after-set_value",
+                  scale=max(1.0, float(np.max(np.abs(x0.val))) if x0.val.size else 1.0))
+        if x0.val.size:
+            mon.close("scalar_history_jacobian", got.jac.toarray(), 6.5 * x0.jac.toarray(), 1e-12,
+                      "scalar-leaf:stale-value-after-set_value", scale=6.5)
+
     # (a) dual numbers
     ref = setup.ref_algebra()
     with np.errstate(all="ignore"):
